@@ -2033,7 +2033,7 @@ pub fn run(ctx: &Ctx) -> Report {
         }
     }
     // random single blocks of every kind
-    for k in 0..ctx.pick(16_000, 480_000) / ctx.nshards {
+    for k in 0..ctx.pick(40_000, 480_000) / ctx.nshards {
         let kind = BLOCK_KINDS[k % BLOCK_KINDS.len()];
         let size = pick_size(&mut rng);
         let b = gen_block(&mut rng, kind, size);
@@ -2061,7 +2061,7 @@ pub fn run(ctx: &Ctx) -> Report {
 
     // ---- inbound: whole messages through on_message_received --------------------------------
     let mut rng = ctx.rng("c20-message");
-    for k in 0..ctx.pick(12_800, 400_000) / ctx.nshards {
+    for k in 0..ctx.pick(32_000, 400_000) / ctx.nshards {
         let c = gen_message(&mut rng, ctx.pick(8, 16));
         if k < 2 {
             rep.sample(c.to_json());
@@ -2071,7 +2071,7 @@ pub fn run(ctx: &Ctx) -> Report {
 
     // ---- pure batching ------------------------------------------------------------------------
     let mut rng = ctx.rng("c20-batching");
-    for _ in 0..ctx.pick(16_000, 320_000) / ctx.nshards {
+    for _ in 0..ctx.pick(40_000, 320_000) / ctx.nshards {
         let (sizes, max) = gen_batching(&mut rng);
         run_batching_case(&mut rep, &sizes, max);
     }
